@@ -580,7 +580,7 @@ def a1_store(ctx):
     for r in S.reports:
         ctx.violated('C03.A1', r.fi, r.node, '[get_spike_waveforms] %s' % r.msg)
     if isinstance(res, Arr):
-        ctx.check(res.axes == (ReqS, Samp, ReqC) and not S.reports, 'C03.A1', fi, 'store lookup axes', 'store lookup returns (requested spikes, samples, requested channels)', 'store lookup returns %s' % res)
+        ctx.check(res.axes == (ReqS, Samp, ReqC) and not S.reports, 'C03.A1', fi, 'store lookup axes', 'store lookup returns (requested spikes, samples, requested channels)', 'store lookup returns %s' % res, value=res)
     else:
         ctx.undecided('C03.A1', fi, 'store lookup result not typed (%s)' % res)
     sid_p, ch_p, sw_p = fi.params[0], fi.params[1], fi.params[2]
